@@ -49,6 +49,8 @@ type Unit struct {
 	Stubs     []string `json:"stubs"`
 	Validate  int      `json:"validate"` // number of translator-validation vectors (quick)
 	NoValidate bool    `json:"no_validate"`
+	NoMerge   bool     `json:"no_merge"`
+	NoDivAxiom bool    `json:"no_div_axiom"`
 }
 
 type Config struct {
@@ -269,6 +271,8 @@ func (P *Prog) newPath(S *Solver, prefix []int) *Path {
 		globals: map[*ssa.Global]*Value{}, inited: map[*ssa.Package]bool{},
 		finished: make(chan struct{}), reached: map[string]bool{}, fnsSeen: map[string]bool{},
 		ufApps: map[string][]ufApp{}, envFires: map[*ChanV]int{}, store: map[string]interface{}{},
+		noMerge: P.cfg.NoMerge || os.Getenv("VERIF_NOMERGE") != "",
+		noDivAxiom: P.cfg.NoDivAxiom,
 	}
 }
 
